@@ -1,6 +1,7 @@
 package sock
 
 import (
+	"context"
 	"encoding/hex"
 	"fmt"
 	"net"
@@ -37,6 +38,9 @@ type c20Plan struct {
 	Steps      []c20Step `json:"steps"`
 	Responders int       `json:"responders,omitempty"`
 	Repeat     int       `json:"repeat,omitempty"` // the same call again (fresh sockets each time): for schedule-dependent outcomes
+	// SamePort (discover): responder 0 answers from the discovery port itself (a gateway on this host, bound to the
+	// KNXnet/IP port with address reuse), so its responses carry a local source address and the port the call listens on
+	SamePort bool `json:"same_port,omitempty"`
 }
 
 var c20Seq int32
@@ -436,6 +440,19 @@ func c20Discover(p c20Plan, timeout, margin time.Duration) (*common.Fail, string
 		n = 1
 	}
 	var peers []*net.UDPConn
+	var samePort *net.UDPConn
+	if p.SamePort {
+		lc := net.ListenConfig{Control: func(network, address string, c syscall.RawConn) error {
+			var serr error
+			c.Control(func(fd uintptr) { serr = syscall.SetsockoptInt(int(fd), syscall.SOL_SOCKET, syscall.SO_REUSEADDR, 1) })
+			return serr
+		}}
+		if pcn, err := lc.ListenPacket(context.Background(), "udp4", fmt.Sprintf("0.0.0.0:%d", grp.Port)); err == nil {
+			samePort = pcn.(*net.UDPConn)
+			ipv4.NewPacketConn(samePort).SetMulticastLoopback(true)
+			defer samePort.Close()
+		}
+	}
 	for i := 0; i < n; i++ {
 		s, err := net.DialUDP("udp4", nil, grp)
 		if err != nil {
@@ -462,7 +479,14 @@ func c20Discover(p c20Plan, timeout, margin time.Duration) (*common.Fail, string
 				time.Sleep(d)
 			}
 			sentAt[i] = time.Now()
-			peers[st.From%n].Write(unhex(st.Hex))
+			b := unhex(st.Hex)
+			// responder 0 may sit on the discovery port itself (anything but search requests: the sniffer attributes
+			// those to the call by their source port)
+			if samePort != nil && (st.From%n == 0 || st.From%2 == 1) && !(len(b) >= 4 && b[2] == 0x02 && b[3] == 0x01) {
+				samePort.WriteToUDP(b, grp)
+				continue
+			}
+			peers[st.From%n].Write(b)
 		}
 	}()
 	res, err := knx.Discover(grp.String(), timeout)
@@ -620,6 +644,7 @@ func genPlanC20(rt *rapid.T) c20Plan {
 	if p.Call == "discover" {
 		other = "descrres"
 		p.Responders = rapid.IntRange(1, 20).Draw(rt, "responders")
+		p.SamePort = rapid.IntRange(0, 2).Draw(rt, "same-port-responder") == 0
 	}
 	if p.TimeoutUs <= 150000 && rapid.IntRange(0, 7).Draw(rt, "chatter") == 0 {
 		// a peer that keeps talking: frames of another service every timeout/2 for well over timeout + slack,
@@ -717,6 +742,20 @@ func genPlanC20(rt *rapid.T) c20Plan {
 			}
 		}
 		p.Steps = append(p.Steps, st)
+	}
+	if p.Call == "discover" && p.SamePort {
+		// the gateway on this host answers from the discovery port well inside the call (a response in the first 30 ms
+		// or close to the deadline is not judged)
+		if p.TimeoutUs < 150000 {
+			p.TimeoutUs = 150000
+		}
+		at := rapid.IntRange(40000, 70000).Draw(rt, "same-port-at")
+		st := c20Step{AtUs: at, Kind: "match", Hex: genMatch(rt, p.Call), From: 0}
+		k := 0
+		for k < len(p.Steps) && p.Steps[k].AtUs <= at {
+			k++
+		}
+		p.Steps = append(p.Steps[:k], append([]c20Step{st}, p.Steps[k:]...)...)
 	}
 	return p
 }
